@@ -35,18 +35,18 @@ package log
 //@ pure SegInv(s *segment) bool = SegBase(s) && 0 <= s.n && 8*(s.n+2) <= len(s.file.Data) && soff(s, 1) == 0 && s.size == soff(s, s.n+1) && s.size <= len(s.file.Data) - 8*(s.n+2) && forall(p, q, SlotPos(s, p) && SlotPos(s, q) && q <= p ==> wordat(s.file.Data, p) <= wordat(s.file.Data, q))
 
 //@ func (*segment).at
-//@   props C02 C03 C04
+//@   props C02 C03 C04 C13 C14
 //@   requires SegBase(s) && 0 <= i && i <= 137438953472
 //@   ensures [C13.at] result0 == len(s.file.Data) - i*8 - 8
 
 //@ func (*segment).offset
-//@   props C02 C03 C04
+//@   props C02 C03 C04 C13 C14
 //@   requires SegBase(s) && 0 <= i && 8*i + 8 <= len(s.file.Data)
 //@   requires [C13.offset-fits-int] soff(s, i) < 9223372036854775808
 //@   ensures [C13.offset] result0 == soff(s, i)
 
 //@ func (*segment).setOffset
-//@   props C02 C03 C04
+//@   props C02 C03 C04 C13 C14
 //@   requires SegBase(s) && 0 <= i && 8*i + 8 <= len(s.file.Data) && off >= 0
 //@   modifies contents(s.file.Data)
 //@   ensures [C13.set-offset] soff(s, i) == off
@@ -54,17 +54,17 @@ package log
 //@   ensures [C13.set-offset-words] forall(p, p + 8 <= base(s.file.Data) + len(s.file.Data) - 8*i - 8 || p >= base(s.file.Data) + len(s.file.Data) - 8*i ==> wordat(s.file.Data, p) == old(wordat(s.file.Data, p)))
 
 //@ func (*segment).lastIndex
-//@   props C02 C03 C04
+//@   props C02 C03 C04 C13 C14
 //@   requires s.n >= 0
 //@   ensures [C13.last-index] s.prevIndex + s.n < 18446744073709551616 ==> result0 == s.prevIndex + s.n
 
 //@ func (*segment).available
-//@   props C02 C03 C04
+//@   props C02 C03 C04 C13 C14
 //@   requires SegInv(s)
 //@   ensures [C13.available] result0 == len(s.file.Data) - 8*(s.n+2) - 8 - s.size
 
 //@ func (*segment).dirty
-//@   props C06 C10
+//@   props C06 C10 C13 C14
 //@   ensures [C14.dirty] result0 == (s.synced < s.n)
 
 // ---------------------------------------------------------------------------
@@ -97,7 +97,7 @@ package log
 //@   ensures result0 != nil ==> gword(f.gdur, base(f.Data) + len(f.Data) - 8) == old(gword(f.gdur, base(f.Data) + len(f.Data) - 8)) || gword(f.gdur, base(f.Data) + len(f.Data) - 8) == wordat(f.Data, base(f.Data) + len(f.Data) - 8)
 
 //@ func (*segment).append
-//@   props C02 C03 C04 C06 C10
+//@   props C02 C03 C04 C06 C10 C13 C14
 //@   requires SegInv(s) && CrashOK(s)
 //@   requires [C13.append-fits] s.size + len(b) <= len(s.file.Data) - 8*(s.n+2) - 8
 //@   requires arrof(b) != arrof(s.file.Data)
@@ -109,13 +109,13 @@ package log
 //@   crash_inv [C14.append-crash-ok] CrashOK(s)
 
 //@ func (*segment).get
-//@   props C02 C03 C04
+//@   props C02 C03 C04 C13 C14
 //@   requires SegInv(s)
 //@   requires [C13.get-range] s.prevIndex < i && i - s.prevIndex + n <= s.n + 1 && n <= 1099511627776
 //@   ensures [C13.get] arrof(result0) == arrof(s.file.Data) && base(result0) == base(s.file.Data) + soff(s, i - s.prevIndex) && len(result0) == soff(s, i - s.prevIndex + n) - soff(s, i - s.prevIndex)
 
 //@ func (*segment).sync
-//@   props C06 C10
+//@   props C06 C10 C13 C14
 //@   requires SegInv(s) && CrashOK0(s) && SyncedOK(s)
 //@   modifies s.synced, contents(s.file.Data), s.file.gdur
 //@   ensures [C14+C10.sync-header-last] result0 == nil ==> hdrDur(s) == s.n && hdrMem(s) == s.n && s.synced == s.n
@@ -126,7 +126,7 @@ package log
 //@   crash_inv [C14.sync-crash-ok] CrashOK0(s) && (old(CrashOK(s)) ==> hdrDur(s) <= s.n)
 
 //@ func (*segment).removeGTE
-//@   props C02 C03 C04 C06 C10
+//@   props C02 C03 C04 C06 C10 C13 C14
 //@   requires SegInv(s) && CrashOK(s)
 // (nothing is truncated when i lies beyond the last entry: then the call only syncs)
 //@   requires [C14.remove-after-commit] s.synced == s.n || i - s.prevIndex - 1 >= s.n
@@ -167,19 +167,19 @@ package log
 //@ pure SegKept(x *segment) bool = x.n == old(x.n) && x.prevIndex == old(x.prevIndex) && x.size == old(x.size) && x.prev == old(x.prev) && x.next == old(x.next) && x.file == old(x.file)
 
 //@ func (*Log).PrevIndex
-//@   props C02 C03 C04
+//@   props C02 C03 C04 C13 C14
 //@   requires l.index == nil ==> l.first != nil
 //@   requires l.index != nil ==> len(l.index) == 2
 //@   ensures [C13.prev-index] result0 == LogPrev(l)
 
 //@ func (*Log).LastIndex
-//@   props C02 C03 C04
+//@   props C02 C03 C04 C13 C14
 //@   requires l.index == nil ==> l.last != nil && l.last.n >= 0 && l.last.prevIndex + l.last.n < 18446744073709551616
 //@   requires l.index != nil ==> len(l.index) == 2
 //@   ensures [C13.last-index] result0 == LogLast(l)
 
 //@ func (*Log).segment
-//@   props C02 C03 C04
+//@   props C02 C03 C04 C13 C14
 //@   requires LogShape(l) && l.index == nil
 //@   requires [C13.segment-range] i <= LogLast(l)
 //@   ensures [C13.segment] (i <= LogPrev(l)) == (result0 == nil)
@@ -187,24 +187,24 @@ package log
 //@   loop 1 invariant s != nil && InList(l, s) && SegGood(s) && i <= s.prevIndex + s.n
 
 //@ func (*Log).Contains
-//@   props C02 C03 C04
+//@   props C02 C03 C04 C13 C14
 //@   requires LogShape(l) && l.index == nil
 //@   ensures [C13.contains] result0 == (i > LogPrev(l) && i <= LogLast(l))
 
 //@ func (*Log).Count
-//@   props C02 C03 C04
+//@   props C02 C03 C04 C13 C14
 //@   requires LogShape(l) && l.index == nil
 //@   ensures [C13.count] LogLast(l) >= LogPrev(l) ==> result0 == LogLast(l) - LogPrev(l)
 
 //@ func (*Log).Get
-//@   props C02 C03 C04
+//@   props C02 C03 C04 C13 C14
 //@   requires LogShape(l) && l.index == nil
 //@   requires [C13.get-range] i <= LogLast(l)
 //@   ensures [C13.get-notfound] (result1 != nil) == (i <= LogPrev(l)) && (result1 != nil ==> result1 == ErrNotFound)
 //@   ensures [C13.get-entry] result1 == nil ==> exists(x, l.gin[x] && SegHolds(x, i, result0))
 
 //@ func (*Log).ViewAt
-//@   props C02 C03 C04
+//@   props C02 C03 C04 C13 C14
 //@   requires LogShape(l) && l.index == nil
 //@   requires [C03.view-bounds] lastIndex <= LogLast(l)
 //@   ensures [C13.view-nil] (result0 == nil) == (prevIndex > lastIndex || prevIndex < LogPrev(l))
@@ -212,7 +212,7 @@ package log
 //@   loop 1 invariant s != nil && InList(l, s)
 
 //@ func (*Log).CommitN
-//@   props C06 C10
+//@   props C06 C10 C13 C14
 //@   requires LogShape(l)
 //@   modifies segment.synced, elems(uint8), mmap.File.gdur
 //@   ensures [C14.commitn-keeps-shape] LogShape(l) && l.first == old(l.first) && l.last == old(l.last)
